@@ -192,6 +192,12 @@ def check_e2e(case, ctx):
     acted = check_table_rows(as_rows(r1.tables["state_data"]), as_rows(r0.tables["state_data"]), {"lhs": lhs, "rhs": rhs, "stop": stop, **full}, ctx, alphas, "client")
     if acted is None:
         return
+    if case["office"] == "H" and "district_data" in r1.tables:
+        # for a district office the district table holds the same contests and must honour calls and stops as well
+        acted2 = check_table_rows(as_rows(r1.tables["district_data"]), as_rows(r0.tables["district_data"]), {"lhs": lhs, "rhs": rhs, "stop": stop, **full}, ctx, alphas, "client/district_data")
+        if acted2 is None:
+            return
+        acted = acted | acted2
     # everything below the top level and the unit table is untouched by calls
     for agg in base["req"]["aggregates"]:
         name = AGG_TABLE[agg]
